@@ -9,11 +9,16 @@ SCHEMA = f'''<xs:schema {XS} targetNamespace="urn:t" xmlns:t="urn:t" elementForm
       <xs:element name="sub" minOccurs="0" maxOccurs="unbounded"><xs:complexType><xs:sequence>
           <xs:element name="leaf" type="xs:int" minOccurs="0" maxOccurs="3"/></xs:sequence>
           <xs:attribute name="ref" type="xs:IDREF"/><xs:attribute name="codeRef" type="xs:int"/></xs:complexType></xs:element>
-     </xs:sequence><xs:attribute name="id" type="xs:ID" use="required"/><xs:attribute name="code" type="xs:int" use="required"/></xs:complexType></xs:element>
+     </xs:sequence><xs:attribute name="id" type="xs:ID" use="required"/><xs:attribute name="code" type="xs:int" use="required"/><xs:attribute name="lang" type="xs:language"/></xs:complexType></xs:element>
   </xs:sequence></xs:complexType>
   <xs:key name="K"><xs:selector xpath="t:item"/><xs:field xpath="@code"/></xs:key>
   <xs:keyref name="R" refer="t:K"><xs:selector xpath="t:item/t:sub"/><xs:field xpath="@codeRef"/></xs:keyref>
  </xs:element></xs:schema>'''
+
+
+def schema_for(ver):
+    """XSD 1.1: the lang attribute of item is inheritable (the validator then works on a copy of its context inside such an item)"""
+    return SCHEMA.replace('name="lang" type="xs:language"', 'name="lang" type="xs:language" inheritable="true"') if ver == '1.1' else SCHEMA
 
 
 def gen(rng, nitems):
@@ -21,7 +26,7 @@ def gen(rng, nitems):
     for i in range(nitems):
         subs = ''.join(f'<t:sub ref="i{rng.randrange(nitems)}" codeRef="{rng.randrange(nitems)}">' + ''.join(f'<t:leaf>{rng.randrange(9)}</t:leaf>' for _ in range(rng.randrange(3))) + '</t:sub>'
                        for _ in range(rng.randrange(3)))
-        items.append(f'<t:item id="i{i}" code="{i}"><t:name>n{i}</t:name><t:qty>{i + 1}</t:qty>{subs}</t:item>')
+        items.append(f'<t:item id="i{i}" code="{i}"' + (' lang="en"' if rng.random() < .3 else '') + f'><t:name>n{i}</t:name><t:qty>{i + 1}</t:qty>{subs}</t:item>')
     return '<t:r xmlns:t="urn:t">' + ''.join(items) + '</t:r>'
 
 
